@@ -145,7 +145,7 @@ def _diff(got: Dict[str, Any], exp: Dict[str, Any]) -> List[str]:
         if ta == tb and all(x.dtype == y.dtype and x.shape == y.shape and np.array_equal(x, y) for x, y in zip(la, lb)):
             continue  # fast path: bit-identical
         for d in leaf_diff(got[part], exp[part]):
-            out.append(f"{part}{d}")
+            out.append(f"{part}: {d}" if d.startswith("tree structure") else f"{part}{d}")
     return out
 
 
@@ -619,7 +619,7 @@ def run_model(model: str, tier: str, seed: int) -> Dict[str, Any]:
                         if depth < root_depth[r]:
                             nxt.append((S2, S2_own, r, acts2))
                         if len(sample_nodes) < 3 and depth >= 2:
-                            sample_nodes.append(S2)
+                            sample_nodes.append((S2, r, acts2))
                 frontier = nxt
             lap("explore")
             res["states"] += len(seen)
@@ -665,9 +665,9 @@ def run_model(model: str, tier: str, seed: int) -> Dict[str, Any]:
             lap("scan")
             # render (3): roots + a few deeper joint states
             if not b:
-                for S in [roots[0][0], roots[-1][0]] + sample_nodes:
-                    report(check_render(env, S, B), {"kind": "render", "B": B, "b": b, "root": roots[0][1],
-                                                     "joint_actions": []})
+                for S, r, acts in [(roots[0][0], 0, []), (roots[-1][0], len(roots) - 1, [])] + sample_nodes:
+                    report(check_render(env, S, B), {"kind": "render", "B": B, "b": b, "root": roots[r][1],
+                                                     "joint_actions": acts})
                     bump("renders_checked", 3)
                     bump("tree_slices_checked", B)
             lap("render")
